@@ -788,7 +788,9 @@ var deepShapes = []deepShape{
 	{Name: "long-line-error", Gen: func(d int) string { return rep("x ", d) + ")" }, Kind: "wide"},
 	{Name: "long-comment-line", Gen: func(d int) string { return "// " + rep("c", d) + "\n)" }, Kind: "wide"},
 	{Name: "loop-body-big", Gen: func(d int) string { return "x := 0; for i := range 2 { " + rep("x = x + 1; ", d) + "}; x" }, Max: 100000, Kind: "wide"},
-	{Name: "if-body-big", Gen: func(d int) string { return "x := 0; if x == 1 { " + rep("x = x + 1; ", d) + "} else { " + rep("x = x + 2; ", d) + "}; x" }, Max: 100000, Kind: "wide"},
+	{Name: "if-body-big", Gen: func(d int) string {
+		return "x := 0; if x == 1 { " + rep("x = x + 1; ", d) + "} else { " + rep("x = x + 2; ", d) + "}; x"
+	}, Max: 100000, Kind: "wide"},
 	{Name: "constants-many", Gen: func(d int) string {
 		var sb strings.Builder
 		sb.WriteString("x := [")
